@@ -71,6 +71,10 @@ type c11Out struct {
 
 var c11Fired int
 
+// c11Kept, when set, is the one variables map the caller of the re-used
+// executable passes with every call (contents replaced before each call).
+var c11Kept map[string]interface{}
+
 func resolveExe(z *workload.Zoo, exe *ggql.Executable, op string, vars map[string]interface{}, plan *workload.FaultPlan, noBadLeaf bool) (o c11Out) {
 	tr := &workload.Tracker{Plan: plan, NoBadLeaf: noBadLeaf}
 	defer func() { c11Fired += len(tr.Fired) }()
@@ -87,6 +91,13 @@ func resolveExe(z *workload.Zoo, exe *ggql.Executable, op string, vars map[strin
 		o.calls = strings.Join(cs, "\n")
 	}()
 	v := map[string]interface{}{}
+	if c11Kept != nil {
+		// a caller that keeps one variables map and changes it between calls
+		v = c11Kept
+		for k := range v {
+			delete(v, k)
+		}
+	}
 	for k, x := range vars {
 		v[k] = deepCopy(x) // the library coerces variable values in place
 	}
@@ -223,7 +234,7 @@ func (c C11) Run(t *tape.Tape, opt core.RunOpt) (res core.Result) {
 	req := workload.GenRequest(t, workload.ReqOpt{Strat: strat, MultiOp: true, VarInLiteral: strat != workload.StratReflect,
 		ShuffleArgs: true, UnknownArgs: strat != workload.StratReflect, NoErrors: t.Bool(1, 2), MaxDepth: 2 + t.Draw(3),
 		NoUnion:       strat == workload.StratInterface || (strat == workload.StratMixed && !(q.Raw["Dog"] && q.Raw["Bird"] && q.Raw["Keeper"] && q.Raw["Cell"])),
-		Introspection: true, VarDirectivesInMeta: true, Pick: true, Span: true, Blob: true, Call: true, FragVars: true, Ghost: true, Relay: t.Bool(1, 2), Nick: true})
+		Introspection: true, VarDirectivesInMeta: true, Pick: true, Span: true, Blob: true, Call: true, FragVars: true, Ghost: true, Relay: t.Bool(1, 2), Nick: true, BadDefaults: t.Bool(1, 3)})
 	res.Evaluations = 1
 	res.Sig = core.Hash64("c11", strat.String(), req.Src)
 	var hist []string
@@ -241,6 +252,11 @@ func (c C11) Run(t *tape.Tape, opt core.RunOpt) (res core.Result) {
 	ncalls := 2 + t.Draw(7)
 	var sig []string
 	executed := 0
+	keepVars := t.Bool(1, 3)
+	kept := map[string]interface{}{}
+	if keepVars {
+		res.Count("probe_caller_keeps_one_variables_map", 1)
+	}
 	for i := 0; i < ncalls; i++ {
 		ops := append([]string{}, req.Ops...)
 		ops = append(ops, "", "NoSuchOp")
@@ -263,7 +279,11 @@ func (c C11) Run(t *tape.Tape, opt core.RunOpt) (res core.Result) {
 			fdesc = fmt.Sprintf(" fault %s at invocation %d", kind, k)
 		}
 		c11Fired = 0
+		if keepVars && t.Bool(3, 4) {
+			c11Kept = kept
+		}
 		got := resolveExe(z, exe, op, vars, plan, strat == workload.StratReflect)
+		c11Kept = nil
 		res.Count("fault_resolver_failure_fired", c11Fired)
 		fresh, ferr := z.Root.ParseExecutableString(req.Src)
 		if ferr != nil {
@@ -313,6 +333,9 @@ func (c C11) Run(t *tape.Tape, opt core.RunOpt) (res core.Result) {
 	}
 	if strings.Contains(req.Src, "zz0:") || strings.Contains(req.Src, "zz1:") {
 		res.Count("probe_document_with_unknown_argument", 1)
+	}
+	if len(req.BadDefault) > 0 {
+		res.Count("probe_variable_default_that_does_not_fit", 1)
 	}
 	_ = strconv.Itoa
 	return
